@@ -475,7 +475,24 @@ def rule_extent(ctx, R, rule="X-EXT"):
         growers = {f.key for f in rl["grower"]}
         ctors = {f.key for f in rl["ctor"]}
         cloners = {f.key for f in rl["cloner"]}
+        role_of_key = {}
+        for r_, fs_ in rl.items():
+            for f_ in fs_:
+                role_of_key.setdefault(f_.key, r_)
         for (label, f, ps, root) in storage_units(ctx, S):
+            base = label.split("::{closure}")[0]
+            parent = S.fns.get(base)
+            role = role_of_key.get(parent.key if parent is not None else f.key)
+            if role in ("entity_resolver", "direct_resolver"):
+                role = "resolver"
+            if role is None:
+                if base.startswith(("get_slice", "borrow_slice", "get_all_slices")):
+                    role = "slices"
+                elif base.startswith("get_view"):
+                    role = "view"
+                else:
+                    role = "other"
+            rule = "X-EXT@" + role
             if ps is None:
                 R.fail(rule, "%s::%s|paths" % (S.name, label), "path enumeration failed (too many paths / unsupported shape)", where_of(f), fn=f.key)
                 continue
@@ -563,7 +580,7 @@ def rule_extent(ctx, R, rule="X-EXT"):
                         if prim in ("slice", "slice_mut"):
                             ext = N(e[3][1])
                             want = ("load", ("field", ("deref", root), "len"), 0)
-                            R.check(strip_epochs(ext) == strip_epochs(want), rule, "%s::%s|%s" % (bname, label, prim), "extent = source.len",
+                            R.check(strip_epochs(ext) == strip_epochs(want), "X-EXT@borrow", "%s::%s|%s" % (bname, label, prim), "extent = source.len",
                                     "%s called with extent %s; expected self.source.len" % (prim, show(ext)), where_of(uf, e[5]), fn=uf.key)
 
 
